@@ -585,6 +585,127 @@ class ExcAnalysis:
         ob(n, 'subscript', 'IndexError' if rt[0] in ('list', 'str', 'tuple') or idx_is_int else 'LookupError',
            text + ' with an index that is not bounded by a guard')
 
+    def _getattr_from_table(self, fn: FuncInfo, n: ast.Call) -> Optional[str]:
+        """getattr(obj, name): obj has a known class and `name` can only be one of the strings that a constant table of the
+        package holds at that position (`_, list_name, _ = TABLE[k]`, `route.collection`, `NAMES[k]`), all of which are
+        attributes of the class."""
+        prog = self.prog
+        t = strip_opt(self.abs.type_at(fn, n.args[0], n))
+        cls = prog.classes.get(t[1]) if t[0] == 'cls' else None
+        if cls is None:
+            return None
+        names = self._table_strings(fn, n.args[1], 0)
+        if not names:
+            return None
+        attrs = set(prog.class_fields(cls)) | {m for a in prog.ancestors(cls) if isinstance(a, ClassInfo) for m in a.methods}
+        if all(nm in attrs for nm in names):
+            return f'the name is one of {sorted(set(names))[:8]} (constant table of the package), all attributes of {cls.name}'
+        return None
+
+    def _table_entries(self, fn: FuncInfo, e: ast.expr, depth: int, subst: Optional[Dict[str, ast.expr]] = None) -> Optional[List[ast.expr]]:
+        """The constant entries `e` may evaluate to when it is a lookup in a constant table of the package; None: unknown.
+        (A miss of the lookup - None - is not an entry: the use of the value is guarded or fails on its own.)"""
+        prog = self.prog
+        if depth > 6:
+            return None
+        env = self.cg.env(fn)
+        if isinstance(e, ast.Name):
+            if subst and e.id in subst:
+                return self._table_entries(subst[e.id][0], subst[e.id][1], depth + 1)
+            sites = env._assign_sites.get(e.id, [])
+            if e.id not in env.vars and not sites:
+                sym = prog.resolve_name(fn.module, e.id)
+                if isinstance(sym, tuple) and sym[0] == 'const':
+                    node = sym[1]
+                    if isinstance(node, ast.Call) and getattr(node.func, 'id', getattr(node.func, 'attr', '')) == 'MappingProxyType' \
+                            and len(node.args) == 1:
+                        node = node.args[0]
+                    return [node]
+                return None
+            if len(sites) == 1 and sites[0][0] == 'expr':
+                return self._table_entries(fn, sites[0][1], depth + 1, subst)
+            return None
+        if isinstance(e, ast.Constant) and e.value is None:
+            return []
+        if isinstance(e, ast.IfExp):
+            a, b = self._table_entries(fn, e.body, depth + 1, subst), self._table_entries(fn, e.orelse, depth + 1, subst)
+            return None if a is None or b is None else a + b
+        if isinstance(e, ast.Subscript) or (isinstance(e, ast.Call) and isinstance(e.func, ast.Attribute) and e.func.attr == 'get'):
+            base = e.value if isinstance(e, ast.Subscript) else e.func.value
+            tabs = self._table_entries(fn, base, depth + 1, subst)
+            if tabs is None:
+                return None
+            out: List[ast.expr] = []
+            for tnode in tabs:
+                if isinstance(tnode, ast.Dict):
+                    out.extend(tnode.values)
+                elif isinstance(tnode, (ast.Tuple, ast.List)):
+                    out.extend(tnode.elts)
+                else:
+                    return None
+            return out
+        if isinstance(e, ast.Call) and isinstance(e.func, (ast.Name, ast.Attribute)):
+            sym = prog.resolve_expr_symbol(fn.module, e.func)
+            if isinstance(sym, FuncInfo):
+                rets = [r.value for r in iter_own_nodes(sym.node) if isinstance(r, ast.Return) and r.value is not None]
+                if not rets:
+                    return None
+                bind = prog.bind_call(fn.module, e)
+                sub = {k: (fn, v) for k, v in bind.items()}
+                out = []
+                for r in rets:
+                    x = self._table_entries(sym, r, depth + 1, sub)
+                    if x is None:
+                        return None
+                    out.extend(x)
+                return out
+        return None
+
+    def _table_strings(self, fn: FuncInfo, e: ast.expr, depth: int) -> Optional[List[str]]:
+        prog = self.prog
+        env = self.cg.env(fn)
+        if depth > 6:
+            return None
+        if isinstance(e, ast.Constant) and isinstance(e.value, str):
+            return [e.value]
+        entries = None
+        pick = None
+        if isinstance(e, ast.Name):
+            sites = env._assign_sites.get(e.id, [])
+            if len(sites) != 1:
+                return None
+            site = sites[0]
+            if site[0] == 'expr':
+                return self._table_strings(fn, site[1], depth + 1)
+            if site[0] == 'item' and site[1][0] == 'expr':
+                entries = self._table_entries(fn, site[1][1], depth + 1)
+                idx = site[2]
+                pick = lambda ent: ent.elts[idx] if isinstance(ent, (ast.Tuple, ast.List)) and idx < len(ent.elts) else None
+        elif isinstance(e, ast.Attribute):
+            entries = self._table_entries(fn, e.value, depth + 1)
+            attr = e.attr
+
+            def pick(ent, attr=attr):
+                if isinstance(ent, ast.Call):
+                    # constructor of a record class of the package: the argument bound to that field
+                    for m_ in prog.modules.values():
+                        b = prog.bind_call(m_, ent)
+                        if attr in b:
+                            return b[attr]
+                return None
+        else:
+            entries = self._table_entries(fn, e, depth + 1)
+            pick = lambda ent: ent
+        if not entries or pick is None:
+            return None
+        out = []
+        for ent in entries:
+            v = pick(ent)
+            if not (isinstance(v, ast.Constant) and isinstance(v.value, str)):
+                return None
+            out.append(v.value)
+        return out
+
     def _total_table(self, fn: FuncInfo, recv: ast.expr, idx: ast.expr, node: ast.AST) -> Optional[str]:
         """The lookup cannot miss: (a) a module-level dict display that nothing in the package modifies, looked up with a
         constant that is one of its keys; (b) a dict that has an entry for every member of an enum (a display listing all
@@ -1029,7 +1150,11 @@ class ExcAnalysis:
                 if A.at(fn, n.args[0], n).truthy != YES:
                     ob(n, 'minmax', 'ValueError', f'`{ast.unparse(n)[:60]}` of a possibly empty sequence')
             elif f.id == 'getattr' and len(n.args) == 2:
-                ob(n, 'getattr', 'AttributeError', f'`{ast.unparse(n)[:60]}` without a default')
+                why = self._getattr_from_table(fn, n)
+                if why:
+                    ob(n, 'getattr', 'AttributeError', f'`{ast.unparse(n)[:60]}`', discharged=why)
+                else:
+                    ob(n, 'getattr', 'AttributeError', f'`{ast.unparse(n)[:60]}` without a default')
             elif f.id == 'len' and n.args:
                 v = A.at(fn, n.args[0], n)
                 if v.none == YES or (A.type_at(fn, n.args[0], n)[0] in ('opt', 'none') and v.none != NO):
